@@ -550,6 +550,8 @@ def NamesWf (n : Names) : Prop :=
   (∀ m ∈ n.marks, '\n' ∉ m.title.toList ∧ ∀ l ∈ m.labels, '\n' ∉ l.2.toList) ∧
   ∀ x ∈ n.tasks, ∀ ps ∈ x.2, ∀ t ∈ ps, '\n' ∉ t.2
 
+instance (n : Names) : Decidable (NamesWf n) := by unfold NamesWf; infer_instance
+
 theorem pcfAddType_wf {p p' : Pcf} {id : Nat} {label : Text} (hp : PcfWf p) (hl : '\n' ∉ label)
     (h : pcfAddType p id label = .ok p') : PcfWf p' := by
   unfold pcfAddType at h
